@@ -15,7 +15,7 @@
    theorems hold for every oracle.  [lang]/[full_lang]/[search_lang] are the semantics of the
    expressions (Lib/RegexM.v), [search] is regexp.MatchString. *)
 From Verif Require Import Lib.Base Lib.RegexM Model.C13_Accounts Proofs.C13 Proofs.C13_Store Proofs.C13_Match Proofs.C13_Partial.
-From Verif Require Import Check.C13 Proofs.C13_Check.
+From Verif Require Import Check.C13 Proofs.C13_Check Model.C13_During Proofs.C13_During.
 From Coq Require Import String.
 Open Scope N_scope.
 
@@ -488,6 +488,119 @@ Proof. exact agree_sound. Qed.
 Print Assumptions C13_agree_sound.
 
 (* ------------------------------------------------------------------------------------------- *)
+(* Queries and refreshes that overlap.  Refresh waits for the signer and for the node without
+   holding a lock, and the duties ask for the accounts of an epoch at any time.  The accessors are
+   observations: for EVERY history, the answer to the query at position k is the query on the state
+   produced by the refreshes before position k -- however many queries were made before it, at
+   which epochs, and whatever they were answered.  ([is_refresh] keeps the Refresh operations.) *)
+Theorem C13_answer_depends_on_refreshes_only :
+  forall parse cfg (ops : list op) (k : nat) (s : state) sync e idx,
+    nth_error ops k = Some (Query sync e idx) ->
+    nth_error (run_from parse cfg s ops) k =
+    Some (OQuery (query cfg (run_state parse cfg s (filter is_refresh (firstn k ops))) sync e idx)).
+Proof. exact answer_depends_on_refreshes_only. Qed.
+Print Assumptions C13_answer_depends_on_refreshes_only.
+
+(* Every query that starts after Refresh has returned sees the refreshed stores. *)
+Theorem C13_after_refresh_sees_refreshed :
+  forall parse cfg ops1 offered vo sync e idx ops2,
+    nth_error (run_from parse cfg init (ops1 ++ Refresh offered vo :: Query sync e idx :: ops2)) (S (List.length ops1)) =
+    Some (OQuery (query cfg (refresh parse cfg (run_state parse cfg init ops1) offered vo) sync e idx)).
+Proof. exact after_refresh_sees_refreshed. Qed.
+Print Assumptions C13_after_refresh_sees_refreshed.
+
+(* A query that lands INSIDE the refresh at position [dq_at d] of a history (while the wallets are
+   listed: AtAccounts; while the node is asked: AtValidators) is answered with the query on a
+   state each of whose two stores is the store of before or the store of after that refresh; when
+   the call returned only after the refresh had ([b = true]), on the refreshed state.
+   [during_answers] is what `agree` compares the observed answers with. *)
+Theorem C13_during_sees_old_or_new :
+  forall parse cfg ops (d : dquery) (b : bool) (l : list (N * N)),
+    In l (during_answers parse cfg ops d b) ->
+    exists offered vo st,
+      nth_error ops (dq_at d) = Some (Refresh offered vo) /\
+      let s := run_state parse cfg init (firstn (dq_at d) ops) in
+      let s' := run_state parse cfg init (firstn (S (dq_at d)) ops) in
+      s' = refresh parse cfg s offered vo /\
+      l = query cfg st (dq_sync d) (dq_epoch d) (dq_idx d) /\
+      (st_accounts st = st_accounts s \/ st_accounts st = st_accounts s') /\
+      (st_vals st = st_vals s \/ st_vals st = st_vals s') /\
+      (b = true -> st = s').
+Proof. exact during_old_or_new. Qed.
+Print Assumptions C13_during_sees_old_or_new.
+
+(* The seeded class: a service that remembers its answers per (epoch, kind) -- [cquery] -- and
+   forgets them at the START of Refresh -- [crefresh ... mid], [mid] being the queries that land
+   while the node is asked.  As long as no query lands inside a refresh it cannot be told from the
+   code: every remembered answer is the answer of the present state, and stays so. *)
+Theorem C13_remembered_answers_invisible_without_overlap :
+  forall parse cfg (c : cstate),
+    coherent cfg c ->
+    (forall sync e,
+       snd (cquery cfg c sync e) = query cfg (cs_st c) sync e None /\
+       coherent cfg (fst (cquery cfg c sync e)) /\ cs_st (fst (cquery cfg c sync e)) = cs_st c)
+    /\ (forall offered vo,
+          coherent cfg (crefresh parse cfg c offered vo []) /\
+          cs_st (crefresh parse cfg c offered vo []) = refresh parse cfg (cs_st c) offered vo).
+Proof.
+  intros parse cfg c H. split.
+  - intros sync e. apply cquery_coherent. exact H.
+  - intros offered vo. apply crefresh_quiet_coherent.
+Qed.
+Print Assumptions C13_remembered_answers_invisible_without_overlap.
+
+(* ... and it is refuted by one query landing inside a refresh: validator 1 exits at epoch 8, the
+   refresh learns it, the stores ARE the refreshed ones, and the validating accounts for epoch 10
+   are still answered as before the refresh (both managers). *)
+Theorem C13_remembered_answers_refuted :
+  forall m, exists parse cfg s0 offered vo e,
+    c_mgr cfg = m /\
+    let c0 := {| cs_st := s0; cs_cache := [] |} in
+    let hit := crefresh parse cfg c0 offered vo [(false, e)] in
+    cs_st hit = refresh parse cfg s0 offered vo /\
+    snd (cquery cfg hit false e) <> query cfg (cs_st hit) false e None /\
+    snd (cquery cfg hit false e) = query cfg s0 false e None.
+Proof.
+  intro m. exists cw_oracle, (cw_cfg m), (refresh cw_oracle (cw_cfg m) init [1; 2] (VOk [cw_val 1 1000; cw_val 2 1000])),
+    [1; 2], (VOk [cw_val 1 8; cw_val 2 1000]), 10.
+  split; [reflexivity|]. destruct (cached_answers_are_stale m) as (H1 & _ & H3 & H4). cbv zeta in *.
+  split; [exact H4|]. split.
+  - rewrite H3, H4, H1. discriminate.
+  - rewrite H3. destruct m; vm_compute; reflexivity.
+Qed.
+Print Assumptions C13_remembered_answers_refuted.
+
+(* What the check establishes about the queries it issues from inside the refreshes (the fakes of
+   the signer / store / node call back into the harness while the manager waits for them):
+   `agree` -- the observed answer is one the model allows at that point; *)
+Theorem C13_agree_during_sound :
+  forall (c : case) (d : dquery) (o : dobs),
+    agree c = true -> In (d, o) (c_during c) ->
+    match o with
+    | DNone => during_answers (lookup_parse (c_parse c)) (c_cfg c) (c_ops c) d false = []
+    | DAnswer b l => In l (during_answers (lookup_parse (c_parse c)) (c_cfg c) (c_ops c) d b)
+    end.
+Proof. exact during_agree_sound. Qed.
+Print Assumptions C13_agree_during_sound.
+
+(* `P_b` (observed output only) -- the observed answer satisfies the property ([query_spec]: the
+   known accounts' validators in the wanted condition under their own index) for the known
+   accounts of before or after that refresh and the validator store of before or after it
+   ([spec_states]: the pairs P_b tracks along the observed history); after it when the call was
+   held back until the refresh had returned. *)
+Theorem C13_P_b_during_sound :
+  forall (c : case) (d : dquery) (b : bool) (obs : list (N * N)),
+    P_b c = true -> In (d, DAnswer b obs) (c_during c) ->
+    let sts := spec_states (c_cfg c) [] [] (c_ops c) (c_outs c) in
+    exists offered vo k0 v0 k1 v1,
+      nth_error (c_ops c) (dq_at d) = Some (Refresh offered vo) /\
+      nth_error sts (dq_at d) = Some (k0, v0) /\ nth_error sts (S (dq_at d)) = Some (k1, v1) /\
+      exists k v, (k = k0 \/ k = k1) /\ (v = v0 \/ v = v1) /\ (b = true -> k = k1 /\ v = v1) /\
+                  query_spec (c_cfg c) k v (dq_sync d) (dq_epoch d) (dq_idx d) obs.
+Proof. exact P_b_during_sound. Qed.
+Print Assumptions C13_P_b_during_sound.
+
+(* ------------------------------------------------------------------------------------------- *)
 (* Non-vacuity. *)
 Open Scope string_scope.
 Definition ex_oracle (t : string) : option (list re) :=
@@ -570,3 +683,16 @@ Example C13_example_states :
        {| v_pk := 4; v_index := 73; v_elig := 0; v_act := 1; v_exit := 3; v_wd := 5; v_slashed := false; v_bal := 0 |}]
   = [(true, true); (false, false); (false, true); (false, true); (false, false)].
 Proof. vm_compute. reflexivity. Qed.
+
+(* a query landing inside a refresh: the refresh learns that validators 1 and 3 have exited; the
+   query that lands while the node is asked is answered from the validator store of before, the
+   same query right after the refresh from the refreshed one *)
+Example C13_example_query_during_refresh :
+  let moved := [ex_val 1 70 5 8 false; ex_val 2 71 5 20 true; ex_val 3 72 5 8 false] in
+  let ops := [Refresh [1; 2; 3; 4] (VOk ex_vals); Query false 10 None;
+              Refresh [1; 2; 3; 4] (VOk moved); Query false 10 None] in
+  let d := {| dq_at := 2; dq_point := AtValidators; dq_sync := false; dq_epoch := 10; dq_idx := None |} in
+  run ex_oracle (ex_cfg Dirk) ops = [OProbe [1; 2]; OQuery [(70, 1)]; OProbe [1; 2]; OQuery []]
+  /\ during_answers ex_oracle (ex_cfg Dirk) ops d false = [[(70, 1)]; [(70, 1)]]
+  /\ during_answers ex_oracle (ex_cfg Dirk) ops d true = [[]].
+Proof. vm_compute. repeat split; reflexivity. Qed.
